@@ -2,14 +2,131 @@
 package c20
 
 import (
+	"crypto/sha256"
+	"encoding/hex"
 	"fmt"
 	"math/rand"
+	"os"
+	"time"
+
+	"github.com/andres-erbsen/clock"
+	"github.com/uber-go/tally"
 
 	"github.com/uber/kraken/core"
+	"github.com/uber/kraken/lib/store"
+	"github.com/uber/kraken/lib/torrent/networkevent"
+	"github.com/uber/kraken/lib/torrent/scheduler"
 	"github.com/uber/kraken/lib/torrent/scheduler/announcequeue"
+	"github.com/uber/kraken/lib/torrent/storage"
+	"github.com/uber/kraken/lib/torrent/storage/agentstorage"
+	"github.com/uber/kraken/tracker/metainfoclient"
 
 	"kvh/internal/eng"
 )
+
+// recQ records every call the scheduler makes on its announce queue as one trace event.
+type recQ struct {
+	q     *announcequeue.QueueImpl
+	c     *eng.Ctx
+	names map[core.InfoHash]string
+}
+
+func (r *recQ) Next() (core.InfoHash, bool) {
+	h, ok := r.q.Next()
+	res := "none"
+	if ok {
+		res = r.names[h]
+	}
+	r.c.W.Ev("Next", "res", res)
+	return h, ok
+}
+func (r *recQ) Add(h core.InfoHash)   { r.c.W.Ev("Add", "h", r.names[h]); r.q.Add(h) }
+func (r *recQ) Ready(h core.InfoHash) { r.c.W.Ev("Ready", "h", r.names[h]); r.q.Ready(h) }
+func (r *recQ) Eject(h core.InfoHash) { r.c.W.Ev("Eject", "h", r.names[h]); r.q.Eject(h) }
+
+// system family: the scheduler's own events (add torrent, announce tick with saturated torrents, announce
+// result / error, removal) applied to a real scheduler state; the queue call stream must be a legal history.
+func system(c *eng.Ctx, t int, rng *rand.Rand, dir string) {
+	defer os.RemoveAll(dir)
+	cads, err := store.NewCADownloadStore(store.CADownloadStoreConfig{DownloadDir: dir + "/download", CacheDir: dir + "/cache"}, tally.NoopScope)
+	if err != nil {
+		panic(err)
+	}
+	defer cads.Close()
+	tc := metainfoclient.NewTestClient()
+	ta := agentstorage.NewTorrentArchive(tally.NoopScope, cads, tc)
+	const nt = 3
+	var torrents []storage.Torrent
+	names := map[core.InfoHash]string{}
+	for i := 0; i < nt; i++ {
+		blob := make([]byte, 8+i)
+		rng.Read(blob)
+		sum := sha256.Sum256(blob)
+		d, _ := core.NewSHA256DigestFromHex(hex.EncodeToString(sum[:]))
+		mi, err := core.NewMetaInfoFromBytes(d, blob, 4)
+		if err != nil {
+			panic(err)
+		}
+		tc.Upload(mi)
+		tor, err := ta.CreateTorrent("ns", d)
+		if err != nil {
+			panic(err)
+		}
+		torrents = append(torrents, tor)
+		names[tor.InfoHash()] = fmt.Sprintf("h%d", i+1)
+	}
+	c.W.Reset(t, map[string]any{"family": "system"})
+	rq := &recQ{q: announcequeue.New(), c: c, names: names}
+	clk := clock.NewMock()
+	clk.Set(time.Unix(1700000000, 0))
+	cfg := scheduler.Config{SeederTTI: time.Hour, LeecherTTI: time.Hour, ConnTTI: time.Hour, ConnTTL: time.Hour,
+		DisablePreemption: true, EmitStatsInterval: time.Hour, PreemptionInterval: time.Hour, ProbeTimeout: time.Second}
+	cfg.ConnState.MaxOpenConnectionsPerTorrent = 1 + rng.Intn(2)
+	pctx := core.PeerContextFixture()
+	vs, err := scheduler.NewVerifState(cfg, ta, pctx, clk, rq, networkevent.NewTestProducer())
+	if err != nil {
+		panic(err)
+	}
+	defer vs.Close()
+	pend := map[int][]core.PeerID{}
+	steps := 15 + rng.Intn(25)
+	for s := 0; s < steps; s++ {
+		i := rng.Intn(nt)
+		h := torrents[i].InfoHash()
+		switch k := rng.Intn(12); {
+		case k < 3:
+			if !vs.HasControl(h) {
+				vs.AddTorrent("ns", torrents[i])
+			}
+		case k < 6:
+			vs.AnnounceTick()
+		case k < 7:
+			vs.AnnounceResult(h)
+		case k < 8:
+			vs.AnnounceErr(h)
+		case k < 9:
+			if vs.HasControl(h) {
+				vs.RemoveTorrent(h)
+			}
+		case k < 11: // saturate: fill every connection slot of the torrent
+			for len(pend[i]) < cfg.ConnState.MaxOpenConnectionsPerTorrent {
+				p := core.PeerIDFixture()
+				if vs.AddPending(p, h) != nil {
+					break
+				}
+				pend[i] = append(pend[i], p)
+			}
+		default:
+			for _, p := range pend[i] {
+				vs.DeletePending(p, h)
+			}
+			pend[i] = nil
+		}
+	}
+	for d := 0; d < nt+2; d++ { // drain
+		rq.Next()
+	}
+}
 
 func init() { eng.Register("c20", run) }
 
@@ -22,7 +139,16 @@ func run(c *eng.Ctx) error {
 		hashes[i] = core.InfoHashFixture()
 		names[hashes[i]] = fmt.Sprintf("h%d", i+1)
 	}
+	root, err := os.MkdirTemp("", "kvh-c20-")
+	if err != nil {
+		return err
+	}
+	defer os.RemoveAll(root)
 	c.Traces(n, func(t int, rng *rand.Rand) {
+		if t%4 == 3 {
+			system(c, t, rng, fmt.Sprintf("%s/t%d", root, t))
+			return
+		}
 		q := announcequeue.New()
 		in := map[int]bool{} // generator precondition only: Add(h) is issued for torrents not in the queue
 		c.W.Reset(t, nil)
